@@ -21,5 +21,7 @@ def check(ctx, rep):
     rxr.rx_5_6(ctx, rep)      # bytes input: the codec the detector picks does not swallow the BOM
     from ..rules import eff as _eff6
     _eff6.eff_6(ctx, rep)        # no memo hands one mutable result to several callers
+    from ..rules import tok as _tok12
+    _tok12.tok_12(ctx, rep)     # what a scan step emits and where the scan continues agree
     rep.note('Not decided: that the regexes and the `pos` arithmetic slice each line correctly (value reasoning), '
              'i.e. the full equality get_code() == input.')
